@@ -718,3 +718,245 @@ def model_request(init_acts, steps):
     for st in steps:
         acts += st["acts"]
     return {"op": "epr.run", "okf": OK_FIELDS_K, "node": NODE_ID, "acts": acts}
+
+
+# ====================================================================== C11: request / result transport
+
+from netqasm.backend.messages import (InitNewAppMessage, MessageType, OpenEPRSocketMessage,  # noqa: E402
+                                      StopAppMessage, SubroutineMessage, deserialize_host_msg)
+from netqasm.lang.instr.flavour import VanillaFlavour  # noqa: E402
+from netqasm.lang.parsing import deserialize as deserialize_subroutine  # noqa: E402
+from netqasm.qlink_compat import (EPRRole, EPRType, LinkLayerCreate, RandomBasis, RequestType,  # noqa: E402
+                                  TimeUnit, request_to_qlink_1_0)
+from netqasm.sdk import build_epr as BE  # noqa: E402
+from netqasm.sdk.connection import BaseNetQASMConnection, DebugConnection, DebugNetworkInfo  # noqa: E402
+from netqasm.sdk.epr_socket import EPRSocket  # noqa: E402
+
+import qlink_interface as qlink_1_0  # noqa: E402
+
+NODE_NAME = "verif-node"
+REMOTE_NAME = "verif-remote"
+
+
+class InProcConnection(BaseNetQASMConnection):
+    """Host-side connection that decodes every serialized message and drives the executor in-process.
+    While a subroutine sits in a wait, the scripted responses are handed to the executor."""
+
+    def __init__(self, executor, responder, **kw):
+        self._executor = executor
+        self._responder = responder
+        self.stuck = False
+        super().__init__(app_name=NODE_NAME, node_name=executor._name, **kw)
+
+    def _get_network_info(self):
+        return DebugNetworkInfo
+
+    def _commit_serialized_message(self, raw_msg, block=True, callback=None):
+        msg = deserialize_host_msg(raw_msg)
+        ex = self._executor
+        if isinstance(msg, InitNewAppMessage):
+            ex.init_new_application(app_id=msg.app_id, max_qubits=msg.max_qubits)
+        elif isinstance(msg, OpenEPRSocketMessage):
+            out = ex.setup_epr_socket(epr_socket_id=msg.epr_socket_id, remote_node_id=msg.remote_node_id,
+                                      remote_epr_socket_id=msg.remote_epr_socket_id)
+            list(out)
+        elif isinstance(msg, SubroutineMessage):
+            sub = deserialize_subroutine(msg.subroutine, flavour=VanillaFlavour())
+            idle = 0
+            for y in ex.execute_subroutine(sub):
+                if y == "wait":
+                    if self._responder(ex):
+                        idle = 0
+                    else:
+                        ex._handle_pending_epr_responses()
+                        idle += 1
+                        if idle > 3:
+                            self.stuck = True
+                            break
+        elif isinstance(msg, StopAppMessage):
+            pass
+
+
+def fresh_world():
+    SharedMemoryManager.reset_memories()
+    BaseNetQASMConnection._app_ids.clear()
+    BaseNetQASMConnection._app_names.clear()
+    DebugConnection.node_ids = {NODE_NAME: NODE_ID, REMOTE_NAME: 1}
+    ex = SteppingExecutor(name=NODE_NAME)
+    ex.network_stack = RecordingStack()
+    return ex
+
+
+TP = {"K": EPRType.K, "M": EPRType.M, "R": EPRType.R}
+
+
+def gen_request_case(rng):
+    """a random call of the EPRSocket create API (+ the matching parameter record for the model)"""
+    tp = rng.choice(["K", "M", "R"])
+    number = rng.choice([1, 1, 2, 3, rng.randint(1, 4)])
+    c = {"tp": tp, "role": "create", "number": number, "socket": rng.randrange(4),
+         "remote_socket": rng.randrange(4),
+         "time_unit": rng.randrange(3), "max_time": rng.choice([0, 0, 1, 7, rng.randrange(1000)]),
+         "rbl": None, "rbr": None, "rotL": [0, 0, 0], "rotR": [0, 0, 0], "basisL": None, "basisR": None,
+         "api": rng.choice(["specific", "specific", "generic"])}
+    if tp in ("M", "R"):
+        how = rng.choice(["none", "rot", "basis", "random"])
+        if how == "rot":
+            c["rotL"] = [rng.randrange(32) for _ in range(3)]
+        elif how == "basis":
+            c["basisL"] = rng.randrange(6)
+        elif how == "random":
+            c["rbl"] = rng.randrange(4)
+        if tp == "M":
+            how = rng.choice(["none", "rot", "basis", "random"])
+            if how == "rot":
+                c["rotR"] = [rng.randrange(32) for _ in range(3)]
+            elif how == "basis":
+                c["basisR"] = rng.randrange(6)
+            elif how == "random":
+                c["rbr"] = rng.randrange(4)
+    return c
+
+
+def model_params(c):
+    """what the API call means, as the parameter record of the Lean model (named bases resolved with the
+    generated basis table by the caller)"""
+    rotL = list(c["rotL"])
+    rotR = list(c["rotR"])
+    if c["basisL"] is not None:
+        rotL = list(BASIS_ROT[c["basisL"]])
+    if c["basisR"] is not None:
+        rotR = list(BASIS_ROT[c["basisR"]])
+    return {"tp": {"K": 0, "M": 1, "R": 2}[c["tp"]], "remote": 1, "purpose": c["socket"],
+            "number": c["number"], "timeUnit": c["time_unit"], "maxTime": c["max_time"],
+            "rbl": c["rbl"], "rbr": c["rbr"], "rotL": rotL, "rotR": rotR}
+
+
+# EprMeasBasis member i -> rotation triple; independent of basis_to_rotation: the documented meaning
+# (X: (0,24,0), Y: (8,0,0), Z: (0,0,0), MX: (0,8,0), MY: (24,0,0), MZ: (16,0,0))
+BASIS_ROT = [(0, 24, 0), (8, 0, 0), (0, 0, 0), (0, 8, 0), (24, 0, 0), (16, 0, 0)]
+
+
+def canon_request(req):
+    out = []
+    for f, v in zip(req._fields, req):
+        if isinstance(v, RequestType):
+            out.append([f, ["RequestType", v.value]])
+        elif isinstance(v, RandomBasis):
+            out.append([f, ["RandomBasis", v.value]])
+        elif isinstance(v, bool) or not isinstance(v, int):
+            out.append([f, [type(v).__name__, repr(v)]])
+        else:
+            out.append([f, ["int", v]])
+    return out
+
+
+def make_responses(c, rng, role):
+    """scripted responses with arbitrary field values for the request of case c"""
+    keep = c["tp"] == "K" or (c["tp"] == "R" and role == "recv")
+    out = []
+    for k in range(c["number"]):
+        r = RespSpec(k, "K" if keep else "M", 1, c["socket"], 1 if role == "recv" else 0, 50 + k, rng)
+        r.seq = rng.randrange(1 << 16)
+        r.goodness = rng.randrange(1 << 20)
+        r.gtime = rng.randrange(1 << 20)
+        r.uid = rng.randrange(1 << 16)
+        out.append(r)
+    return out
+
+
+def run_sdk_case(c, rng, role="create"):
+    """Runs the API call through SDK -> bytes -> executor -> recording stack, feeds scripted responses,
+    returns what the stack received and what the host-side handles read."""
+    ex = fresh_world()
+    resps = make_responses(c, rng, role)
+    todo = list(resps)
+
+    def responder(ex_):
+        if not todo:
+            return False
+        ex_._handle_epr_response(todo.pop(0).real())
+        return True
+
+    sock = EPRSocket(REMOTE_NAME, epr_socket_id=c["socket"], remote_epr_socket_id=c["remote_socket"])
+    conn = InProcConnection(ex, responder, epr_sockets=[sock], max_qubits=5)
+    tu = TimeUnit(c["time_unit"])
+    kw = {}
+    if c["tp"] in ("M", "R"):
+        if c["basisL"] is not None:
+            kw["basis_local"] = BE.EprMeasBasis(c["basisL"])
+        elif c["rotL"] != [0, 0, 0]:
+            kw["rotations_local"] = tuple(c["rotL"])
+        if c["rbl"] is not None:
+            kw["random_basis_local"] = RandomBasis(c["rbl"])
+    if c["tp"] == "M":
+        if c["basisR"] is not None:
+            kw["basis_remote"] = BE.EprMeasBasis(c["basisR"])
+        elif c["rotR"] != [0, 0, 0]:
+            kw["rotations_remote"] = tuple(c["rotR"])
+        if c["rbr"] is not None:
+            kw["random_basis_remote"] = RandomBasis(c["rbr"])
+    handles = None
+    qubits = None
+    if role == "create":
+        if c["api"] == "generic" and c["tp"] != "R" or (c["api"] == "generic" and c["rbl"] is None
+                                                         and c["rotL"] == [0, 0, 0]):
+            logging.disable(logging.CRITICAL)
+            res = sock.create(number=c["number"], tp=TP[c["tp"]], time_unit=tu, max_time=c["max_time"], **kw)
+            if c["tp"] == "K":
+                qubits = res
+            else:
+                handles = res
+        elif c["tp"] == "K":
+            qubits, handles = sock.create_keep_with_info(number=c["number"], time_unit=tu,
+                                                         max_time=c["max_time"])
+        elif c["tp"] == "M":
+            handles = sock.create_measure(number=c["number"], time_unit=tu, max_time=c["max_time"], **kw)
+        else:
+            handles = sock.create_rsp(number=c["number"], time_unit=tu, max_time=c["max_time"], **kw)
+    else:
+        if c["tp"] == "K":
+            qubits, handles = sock.recv_keep_with_info(number=c["number"], expect_phi_plus=c.get("phi", True))
+        elif c["tp"] == "M":
+            handles = sock.recv_measure(number=c["number"], expect_phi_plus=c.get("phi", True))
+        else:
+            qubits, handles = sock.recv_rsp_with_info(number=c["number"], expect_phi_plus=c.get("phi", True))
+    conn.flush()
+    out = {"requests": list(ex.network_stack.requests), "stuck": conn.stuck, "resps": resps,
+           "handles": [], "entinfo": []}
+    if handles is not None and not conn.stuck:
+        for i, h in enumerate(handles):
+            if isinstance(h, BE.EprKeepResult):
+                for attr in ("qubit_id", "remote_node_id", "generation_duration", "raw_bell_state"):
+                    out["handles"].append([i, attr, getattr(h, attr).value])
+                out["handles"].append([i, "bell_state", h.bell_state.value])
+            else:
+                for attr in ("raw_measurement_outcome", "remote_node_id", "generation_duration",
+                             "raw_bell_state"):
+                    out["handles"].append([i, attr, getattr(h, attr).value])
+                out["handles"].append([i, "measurement_basis_local", list(h.measurement_basis_local)])
+                out["handles"].append([i, "measurement_basis_remote", list(h.measurement_basis_remote)])
+    if qubits is not None and not conn.stuck:
+        for i, q in enumerate(qubits):
+            info = q.entanglement_info
+            for f, v in zip(info._fields, info):
+                out["entinfo"].append([i, f, v.value])
+    out["kind"] = "keep" if (handles and isinstance(handles[0], BE.EprKeepResult)) else "measure"
+    return out
+
+
+def qlink_accepts(req):
+    """the oracle of C11's request half: the link-layer conversion accepts the request. For the R type
+    (`request_to_qlink_1_0` has no branch for it) the same conversion as for M is applied by hand."""
+    if req.type == RequestType.R:
+        qlink_1_0.ReqRemoteStatePrep(
+            remote_node_id=req.remote_node_id, minimum_fidelity=req.minimum_fidelity, time_unit=req.time_unit,
+            max_time=req.max_time, purpose_id=req.purpose_id, number=req.number, priority=req.priority,
+            atomic=req.atomic, consecutive=req.consecutive,
+            random_basis_local=qlink_1_0.RandomBasis(req.random_basis_local.value),
+            x_rotation_angle_local_1=req.rotation_X_local1, y_rotation_angle_local=req.rotation_Y_local,
+            x_rotation_angle_local_2=req.rotation_X_local2)
+        qlink_1_0.RandomBasis(req.random_basis_remote.value)
+        return "R"
+    q = request_to_qlink_1_0(req)
+    return type(q).__name__
